@@ -267,6 +267,14 @@ func parse(sql string, args []driver.Value) (*Stmt, error) {
 	p := &parser{toks: toks, args: args}
 	st := &Stmt{SQL: sql, Args: args}
 	switch {
+	case p.isKw("explain") && p.isKwAt(1, "select"):
+		p.i += 2
+		if err = p.parseSelect(st); err == nil {
+			if st.Kind != SSelect {
+				err = fmt.Errorf("EXPLAIN of a statement other than a row SELECT")
+			}
+			st.Kind = SExplain
+		}
 	case p.acceptKw("select"):
 		err = p.parseSelect(st)
 	case p.acceptKw("insert"):
